@@ -343,7 +343,10 @@ class BufferStore(Store):
             if self.mode == "FIFO":
                 item = self.ready_items[j]
             else:  # LIFO
-                item = self.ready_items[-1 - j]
+                # newest item that is not already reserved (items may have become
+                # ready on top of the stack while earlier reservations are outstanding)
+                item = next(it for it in reversed(self.ready_items)
+                            if not any(it is r for r in self.reserved_items))
 
             # record the reservation
             self.reserved_events.append(event)
